@@ -65,7 +65,8 @@ class DPT2ByteFloat(DPTNumeric):
                 return DPTArray((0x00, 0x00))
 
             exponent = 0
-            while not -2048 <= knx_value <= 2047:
+            # test the rounded mantissa: 2047.25 still fits as 2047 (nearer than 1024 at the next exponent)
+            while not -2048 <= round(knx_value) <= 2047:
                 exponent += 1
                 knx_value /= 2
 
